@@ -238,6 +238,30 @@ Record param := {
   p_opt : option gval      (* the default when the script argument is absent *)
 }.
 
+(* a check the wrapper makes on the converted parameters before it calls the Go function; when it
+   fires the wrapper returns a value error and the Go function is not called.  Positions are
+   positions in the argument list of the Go function. *)
+Inductive guard :=
+| GNeg (pos : nat)                          (* if x < 0 { error } *)
+| GTooLong (spos npos : nat) (bound : Z).   (* if len(s) > 0 && n > bound/len(s) { error } *)
+
+Definition glen (g : gval) : option Z :=
+  match g with
+  | GStr s | GBytes s => Some (Z.of_nat (List.length s))
+  | _ => None
+  end.
+
+Definition guard_fires (g : guard) (l : list gval) : bool :=
+  match g with
+  | GNeg i => match nth_error l i with Some (GInt n) => (n <? 0)%Z | _ => false end
+  | GTooLong i j b =>
+      match nth_error l i, nth_error l j with
+      | Some s, Some (GInt n) =>
+          match glen s with Some k => (0 <? k)%Z && (b / k <? n)%Z | None => false end
+      | _, _ => false
+      end
+  end.
+
 Inductive retk := RBool | RInt | RFloat | RString | RBytes | RStrList | RRegexp.
 
 Record wrapper := {
@@ -246,6 +270,7 @@ Record wrapper := {
   w_max : nat;
   w_params : list param;   (* in the order in which the wrapper converts them *)
   w_consts : list (nat * gval);   (* constant arguments of the Go function, by position *)
+  w_guards : list guard;   (* checks made after the conversions, in order *)
   w_callee : string;       (* the Go function called, e.g. "strings.HasPrefix" *)
   w_ret : retk;            (* result constructor *)
   w_regular : bool         (* false: the source did not have the regular shape (differential run only) *)
@@ -322,10 +347,15 @@ Definition lift (k : retk) (r : gret) : outcome :=
   | GPanic tok => Panic tok
   end.
 
+Definition guards_pass (w : wrapper) (l : list gval) : bool :=
+  negb (existsb (fun g => guard_fires g l) (w_guards w)).
+
 Definition run_wrapper (F : string -> list gval -> gret) (w : wrapper) (args : list obj) : outcome :=
   match unpack w args with
   | Err e => Ret (OErr e)
-  | Ok a => lift (w_ret w) (F (w_callee w) (place w a))
+  | Ok a =>
+      let l := place w a in
+      if guards_pass w l then lift (w_ret w) (F (w_callee w) l) else Ret (OErr EValue)
   end.
 
 (* ------------------------------------------------------------------ well-formedness of a record *)
@@ -440,9 +470,16 @@ Definition positions_ok (w : wrapper) : bool :=
   && nodup_nat ps && covers (List.length ps) 0 ps
   && forallb (fun j => Nat.ltb j (List.length ps)) ps.
 
+Definition guard_ok (n : nat) (g : guard) : bool :=
+  match g with
+  | GNeg i => Nat.ltb i n
+  | GTooLong i j b => Nat.ltb i n && Nat.ltb j n && negb (Nat.eqb i j) && (0 <=? b)%Z
+  end.
+
 Definition wrapper_wf (w : wrapper) : bool :=
   if w_regular w then
     args_in_order w && positions_ok w
+    && forallb (guard_ok (List.length (w_params w) + List.length (w_consts w))) (w_guards w)
     && String.eqb (w_callee w) (expected_callee (w_name w))
     && consts_eqb (w_consts w) (match assoc_s (w_name w) expected_consts with Some c => c | None => [] end)
     && (List.length (w_params w) <=? w_max w)%nat && (w_min w <=? w_max w)%nat
@@ -471,13 +508,30 @@ Fixpoint find_wrapper (name : string) (l : list wrapper) : option wrapper :=
 Fixpoint repeat_bytes (s : bytes) (n : nat) : bytes :=
   match n with O => [] | S n' => s ++ repeat_bytes s n' end.
 
+(* strings.Repeat / bytes.Repeat as far as panics go: a negative count, and a result the runtime
+   cannot allocate (taken generously: 2^40 bytes and more) *)
+Definition repeat_panics (s : bytes) (n : Z) : bool :=
+  ((n <? 0) || (2 ^ 40 <=? Z.of_nat (List.length s) * n))%Z.
+
 Definition go_repeat (callee : string) (a : list gval) : gret :=
   match a with
   | [GStr s; GInt n] =>
-      if (n <? 0)%Z then GPanic (bytes_of_string "strings: negative Repeat count")
+      if repeat_panics s n then GPanic (bytes_of_string "strings: negative Repeat count or output too large")
       else GOk (GStr (repeat_bytes s (Z.to_nat n)))
   | [GBytes s; GInt n] =>
-      if (n <? 0)%Z then GPanic (bytes_of_string "bytes: negative Repeat count")
+      if repeat_panics s n then GPanic (bytes_of_string "bytes: negative Repeat count or output too large")
       else GOk (GBytes (repeat_bytes s (Z.to_nat n)))
   | _ => GPanic []
   end.
+
+(* the shape of a guarded repeat wrapper *)
+Definition text_conv (c : conv) : bool :=
+  match c with CString | CBytes | CBytesOnly | CRecvString | CRecvBytes => true | _ => false end.
+
+Definition mk_repeat (name callee : string) (c0 : conv) (ret : retk) (bound : Z) : wrapper :=
+  {| w_name := name; w_min := 2; w_max := 2;
+     w_params := [ {| p_arg := 0; p_conv := c0; p_cast := KNone; p_pos := 0; p_opt := None |};
+                   {| p_arg := 1; p_conv := CInt; p_cast := KInt; p_pos := 1; p_opt := None |} ];
+     w_consts := [];
+     w_guards := [GNeg 1; GTooLong 0 1 bound];
+     w_callee := callee; w_ret := ret; w_regular := true |}.
